@@ -96,6 +96,17 @@ def check_method(rep, cands, pr, mir, tt, vm, meth, feature, timeout):
                         ok = ok and not (pat != r'CraneliftProgram' or feature == 'cranelift')
                     elif not (isinstance(fv, Enum) and is_true(simplify(fv.disc() == 0))):
                         cand(f'stale-{"jit" if "Jit" in pat else "cranelift"}-code-kept', f'set_program does not reset the {what}'); ok = False
+        if meth == 'set_program' and vm == 'fixed' and is_ok and selfv is not None:
+            # 'the result depends only on the loaded program, the helpers and the buffers passed in': the internal metadata buffer of the newly loaded program
+            # is a fresh zero-filled allocation - bytes earlier executions left in the old one (packet addresses) must not be visible to the new program
+            mo = next((x for k, x in selfv.fields.items() if isinstance(x, LazyObj) and k != 0), None)
+            kb = field_by_type(mo, r'Vec<u8>') if mo is not None else None
+            buf = mo.fields.get(kb) if kb is not None else None
+            allocs = {str(e[1][2]): e[1][0] for e in ev if e[0] == 'alloc'}
+            fresh = isinstance(buf, Slice) and str(buf.base) in allocs and isinstance(allocs[str(buf.base)], V) and is_true(simplify(allocs[str(buf.base)].t == 0))
+            pr.out['obligations'] += 1
+            if fresh: pr.out['discharged'] += 1
+            else: cand('metadata-buffer-not-fresh', f'EbpfVmFixedMbuff::set_program returns Ok with a metadata buffer that is not a fresh zero-filled allocation ({buf}; events {[e[0] for e in ev]}): the new program can read what earlier executions left there'); ok = False
         if meth == 'set_verifier' and is_ok and selfv is not None:
             mb, mbname = descend(selfv, vm)
             kprog = field_by_type(mb, r'Option<&(\'\w+ )?\[u8\]>$') if mb is not None else None
